@@ -168,8 +168,11 @@ class AbsoluteModelRef:
     """
 
     class Context:
-        data = threading.local()
-        data.context: ContextInjectionType = None
+        class _Data(threading.local):
+            # Class attribute is the default for threads other than the one that imported this module
+            context: ContextInjectionType = None
+
+        data = _Data()
 
         def __init__(self, patches: ContextInjectionType):
             self.context: ContextInjectionType = patches
